@@ -771,6 +771,11 @@ func (s *TxStore) Rollback(tx mwdb.DBTransaction, height uint64) error {
 							})
 						continue
 					}
+					if _, tracked := allMined[ma.Account()]; !tracked {
+						// the wallet is being removed: its balance, unspent, address and history
+						// records are already gone and must not be re-created
+						continue
+					}
 
 					unspentKey, credKey, err := existsUnspent(nsUnspent, ma.Account(), &op)
 					if err != nil {
@@ -906,6 +911,11 @@ func (s *TxStore) Rollback(tx mwdb.DBTransaction, height uint64) error {
 					}
 					return err
 				}
+				if _, tracked := allMined[ma.Account()]; !tracked {
+					// the wallet is being removed: its balance, unspent, address and history
+					// records are already gone and must not be re-created
+					continue
+				}
 
 				unspentVal, err := fetchNsUnspentValueFromRawCredit(credKey)
 				if err != nil {
@@ -985,6 +995,11 @@ func (s *TxStore) Rollback(tx mwdb.DBTransaction, height uint64) error {
 							"height":     curHeight,
 							"err":        err,
 						})
+					continue
+				}
+				if _, tracked := allMined[ma.Account()]; !tracked {
+					// the wallet is being removed: its balance, unspent, address and history
+					// records are already gone and must not be re-created
 					continue
 				}
 
